@@ -165,10 +165,9 @@ def _export(circuit, r, order, expected=()):
             if fit:
                 raise Reject(f"{tname}: {fit[0]}")
         raise
-    must = sorted({k for k, _, certain in expected if certain})
-    if must:
-        raise Violation(f"export accepted a circuit that the documented rules reject ({', '.join(must)}), version {version}\n"
-                        f"circuit:\n{circuit}\n{_strip_header(text)}")
+    # An export that ACCEPTS a circuit the documented rules reject is not by itself a violation of C19 (the property is about
+    # the meaning of emitted text, not about which circuits are refused): the text goes through the same translation
+    # validation as any other, which fails if e.g. a condition was silently dropped.
     return text, list(order), precision, version
 
 
